@@ -132,30 +132,26 @@ def _verifiers(ctx):
                              f"per-element conversion (e.g. Tract objects inside a TRSList)",
                   key="SINK|_verify_iterable|shortcut", where=common.loc(vi, s))
     t = ' '.join(norm(s) for s in walk_local(vi.node) if isinstance(s, ast.stmt))
-    ctx.check("isinstance(iterable, str)" in t and 'raise TypeError' in t, 'SINK',
-              '_verify_iterable rejects a bare str', detail_bad="str guard gone", key="SINK|_verify_iterable|str")
+    ctx.shape("isinstance(iterable, str)" in t and 'raise TypeError' in t, 'SINK',
+              '_verify_iterable rejects a bare str')
     ind = ctx.repo.func('_TRSTractList._verify_individual')
     t = ' '.join(norm(s) for s in walk_local(ind.node) if isinstance(s, ast.stmt))
     ok = any(isinstance(n, ast.Raise) and 'TypeError' in norm(n) and any(
         norm(tt) == 'not isinstance(obj, cls._ok_individuals)' and pol for tt, pol in guards(n))
         for n in walk_local(ind.node))
-    ctx.check(ok and 'return cls._handle_type_specially(obj)' in t, 'SINK',
-              '_verify_individual: TypeError for foreign types, else the converted object',
-              detail_bad="_verify_individual changed", key="SINK|_verify_individual")
+    ctx.shape(ok and 'return cls._handle_type_specially(obj)' in t, 'SINK',
+              '_verify_individual: TypeError for foreign types, else the converted object')
     ht = ctx.repo.func('TRSList._handle_type_specially')
     t = ' '.join(norm(s) for s in walk_local(ht.node) if isinstance(s, ast.stmt))
-    ctx.check('return TRS(obj)' in t and 'return TRS(obj.trs)' in t and 'return obj' in t and 'raise TypeError' in t,
-              'SINK', 'TRSList converts str and Tract to TRS, keeps TRS, rejects the rest',
-              detail_bad="TRSList conversion changed", key="SINK|TRSList._handle_type_specially")
+    ctx.shape('return TRS(obj)' in t and 'return TRS(obj.trs)' in t and 'return obj' in t and 'raise TypeError' in t,
+              'SINK', 'TRSList converts str and Tract to TRS, keeps TRS, rejects the rest')
     # class tables
     for cls, ind_, its in (('TractList', '(Tract,)', ('tuple()', '()')),
                            ('TRSList', '(str, TRS, Tract)', ('(TractList,)',))):
         ci = ctx.repo.cls(f"containers:{cls}")
         al = {norm(s.targets[0]): norm(s.value) for s in ci.node.body if isinstance(s, ast.Assign)}
-        ctx.check(al.get('_ok_individuals') == ind_ and al.get('_ok_iterables') in its, 'TBL',
-                  f"{cls}: accepted element types {ind_}",
-                  detail_bad=f"_ok_individuals={al.get('_ok_individuals')}, _ok_iterables={al.get('_ok_iterables')}",
-                  key=f"TBL|{cls}|types")
+        ctx.shape(al.get('_ok_individuals') == ind_ and al.get('_ok_iterables') in its, 'TBL',
+                  f"{cls}: accepted element types {ind_}")
 
 
 def _from_multiple(ctx):
@@ -165,7 +161,8 @@ def _from_multiple(ctx):
         raise AnalysisError("_from_multiple: loop over objects not found")
     chain = loops[0].body
     if len(chain) != 1 or not isinstance(chain[0], ast.If):
-        raise AnalysisError("_from_multiple: expected a single if/elif chain per object")
+        ctx.undecided('SINK', '_from_multiple branches', 'single if/elif chain not recognised')
+        return
     branches = []
     node = chain[0]
     while True:
@@ -176,8 +173,8 @@ def _from_multiple(ctx):
             branches.append(('else', node.orelse))
             break
     tests = [b[0] for b in branches]
-    ctx.check('isinstance(obj, cls._ok_individuals)' == tests[0], 'SINK',
-              '_from_multiple: acceptable individuals first', detail_bad=f"branches {tests}", key="SINK|_from_multiple|first")
+    ctx.shape('isinstance(obj, cls._ok_individuals)' == tests[0], 'SINK',
+              '_from_multiple: acceptable individuals first')
     str_idx = next((i for i, t in enumerate(tests) if t == 'isinstance(obj, str)'), None)
     else_idx = len(tests) - 1
     ctx.check(str_idx is not None and str_idx < else_idx and any(
@@ -197,9 +194,8 @@ def _from_multiple(ctx):
               key="SINK|_from_multiple|skip")
     for cls in ('TractList', 'TRSList'):
         f2 = ctx.repo.func(f"{cls}.from_multiple")
-        ctx.check(norm(f2.node.body[-1]) == 'return cls._from_multiple(objects)', 'SINK',
-                  f"{cls}.from_multiple delegates to _from_multiple",
-                  detail_bad="delegation changed", key=f"SINK|{cls}.from_multiple")
+        ctx.shape(norm(f2.node.body[-1]) == 'return cls._from_multiple(objects)', 'SINK',
+                  f"{cls}.from_multiple delegates to _from_multiple")
 
 
 def _group(ctx):
@@ -227,60 +223,89 @@ def _group(ctx):
         and not any(isinstance(s, (ast.If, ast.Continue, ast.Break, ast.Try)) for s in loop.body)
     ctx.check(ok, 'SINK', '_group: every element is appended exactly once, unconditionally, to its group',
               detail_bad=f"loop body is {body}", key="SINK|_group|append")
-    ctx.check(body.count('dct[val].append(t)') == 1, 'SINK', '_group: one append per element',
-              detail_bad="element appended more than once", key="SINK|_group|once")
+    ctx.shape(body.count('dct[val].append(t)') == 1, 'SINK', '_group: one append per element')
     ug = ctx.repo.func('_TRSTractList.unpack_group.unpack')
     t = ' '.join(norm(s) for s in walk_local(ug.node) if isinstance(s, ast.stmt))
-    ctx.check('for v_ in dct.values()' in t and 'unpack(v_)' in t and 'tl.extend(v_)' in t, 'SINK',
-              'unpack_group extends with every leaf list and recurses into nested dicts',
-              detail_bad="unpack changed", key="SINK|unpack_group")
+    ctx.shape('for v_ in dct.values()' in t and 'unpack(v_)' in t and 'tl.extend(v_)' in t, 'SINK',
+              'unpack_group extends with every leaf list and recurses into nested dicts')
+    ad = ctx.repo.func('_TRSTractList.group_by_nested.add_to_existing_dict')
+    rec = [c for c in walk_local(ad.node) if isinstance(c, ast.Call) and dotted(c.func) == 'add_to_existing_dict']
+    for c in rec:
+        amap = {}
+        for nm_, av in zip(ad.params(), c.args):
+            amap[nm_] = av
+        for k_ in c.keywords:
+            if k_.arg:
+                amap[k_.arg] = k_.value
+        for pname, av in amap.items():
+            same = isinstance(av, ast.Name) and av.id == pname
+            ctx.tri(not same, same, 'SINK', f"group_by_nested: the recursion descends in `{pname}`",
+                    detail_bad=f"the recursive call passes `{pname}` itself: nested groups are merged into the upper level "
+                               f"instead of their own sub-dict", key=f"SINK|add_to_existing_dict|descend|{pname}",
+                    where=common.loc(ad, c))
     gb = ctx.repo.func('_TRSTractList.group_by')
     t = ' '.join(norm(s) for s in walk_local(gb.node) if isinstance(s, ast.stmt))
-    ctx.check('dct_2 = self._group(v1, grp_att)' in t and 'dct_new[tuple(k1_base + [k2])] = v2' in t, 'SINK',
-              'group_by regroups every sub-list under the extended key',
-              detail_bad="multi-attribute group_by changed", key="SINK|group_by|regroup")
+    ctx.shape('dct_2 = self._group(v1, grp_att)' in t and 'dct_new[tuple(k1_base + [k2])] = v2' in t, 'SINK',
+              'group_by regroups every sub-list under the extended key')
 
 
 def _selection(ctx):
     fi = ctx.repo.func('_TRSTractList._new_list_from_self')
     loops = [n for n in fi.node.body if isinstance(n, ast.For)]
+    byvalue_any = [c for c in walk_local(fi.node) if isinstance(c, ast.Call) and isinstance(c.func, ast.Attribute)
+                   and c.func.attr == 'remove']
+    if byvalue_any:
+        ctx.violation('SINK', '_new_list_from_self drops by index',
+                      f"`{norm(byvalue_any[0])}` removes the first *equal* element, not the selected one: with "
+                      f"repeated / equal elements the wrong one is dropped and order changes",
+                      key="SINK|_new_list_from_self|drop", where=common.loc(fi, byvalue_any[0]))
+    pops = [c for c in walk_local(fi.node) if isinstance(c, ast.Call) and isinstance(c.func, ast.Attribute) and c.func.attr == 'pop']
+    for c in pops:
+        lp = next((p_ for p_ in _anc(c) if isinstance(p_, ast.For)), None)
+        if lp is None:
+            continue
+        it = norm(lp.iter)
+        desc = ('reversed(' in it or ', -1, -1)' in it.replace(' ', '').replace(',-1,-1)', ', -1, -1)') or '[::-1]' in it
+                or 'reverse=True' in it)
+        asc = it in ('indexes', 'sorted(indexes)', 'range(len(indexes))', 'enumerate(indexes)')
+        ctx.tri(desc, asc, 'SINK', '_new_list_from_self pops the selected indexes from the highest down',
+                detail_bad=f"elements are popped while iterating `{it}` in ascending order: each pop shifts the later "
+                           f"indexes, so the wrong elements are dropped", key="SINK|_new_list_from_self|pop-order",
+                where=common.loc(fi, c))
     if len(loops) != 1:
-        raise AnalysisError("_new_list_from_self: loop not found")
+        ctx.undecided('SINK', '_new_list_from_self selection loop', 'single loop not recognised')
+        return
     loop = loops[0]
-    ctx.check(norm(loop.iter) == 'range(len(indexes) - 1, -1, -1)', 'SINK',
-              '_new_list_from_self walks the selected indexes from last to first',
-              detail_bad=f"iteration is `{norm(loop.iter)}`", key="SINK|_new_list_from_self|order")
+    ctx.shape(norm(loop.iter) == 'range(len(indexes) - 1, -1, -1)', 'SINK',
+              '_new_list_from_self walks the selected indexes from last to first')
     body = ' '.join(norm(s) for s in ast.walk(loop) if isinstance(s, ast.stmt))
-    ctx.check('ind = indexes[i]' in body and 'new_list.append(self[ind])' in body, 'SINK',
-              '_new_list_from_self copies element self[ind]', detail_bad="copy changed",
-              key="SINK|_new_list_from_self|copy")
+    ctx.shape('ind = indexes[i]' in body and 'new_list.append(self[ind])' in body, 'SINK',
+              '_new_list_from_self copies element self[ind]')
     removers = [c for c in ast.walk(loop) if isinstance(c, ast.Call) and isinstance(c.func, ast.Attribute)
                 and c.func.attr in ('pop', 'remove') or isinstance(c, ast.Delete)]
     byvalue = [c for c in removers if isinstance(c, ast.Call) and c.func.attr == 'remove']
-    if byvalue:
-        ctx.violation('SINK', '_new_list_from_self drops by index',
-                      f"`{norm(byvalue[0])}` removes the first *equal* element, not the selected one: with "
-                      f"repeated / equal elements the wrong one is dropped and order changes",
-                      key="SINK|_new_list_from_self|drop", where=common.loc(fi, byvalue[0]))
-    else:
+    if not byvalue:
         ok = any(isinstance(c, ast.Call) and norm(c) in ('self.pop(ind)', 'self._elements.pop(ind)') and any(
             norm(t) == 'drop' and pol for t, pol in guards(c)) for c in removers)
-        ctx.check(ok, 'SINK', '_new_list_from_self drops by index', 'if drop: self.pop(ind)',
-                  "the drop no longer pops the selected index under `if drop`", key="SINK|_new_list_from_self|drop")
-    ctx.check(any(norm(s) == 'new_list.reverse()' for s in fi.node.body), 'SINK',
-              '_new_list_from_self restores the original order with one reverse()',
-              detail_bad="order not restored", key="SINK|_new_list_from_self|reverse")
+        ctx.shape(ok, 'SINK', '_new_list_from_self drops by index', 'if drop: self.pop(ind)')
+    ctx.shape(any(norm(s) == 'new_list.reverse()' for s in fi.node.body), 'SINK',
+              '_new_list_from_self restores the original order with one reverse()')
     for spec in ('_TRSTractList.filter', '_TRSTractList.filter_errors', '_TRSTractList.filter_duplicates'):
         f2 = ctx.repo.func(spec)
         t = ' '.join(norm(s) for s in walk_local(f2.node) if isinstance(s, ast.stmt))
-        ctx.check('for i, element in enumerate(self)' in t and 'indexes_to_include.append(i)' in t
+        ctx.shape('for i, element in enumerate(self)' in t and 'indexes_to_include.append(i)' in t
                   and 'return self._new_list_from_self(indexes_to_include, drop)' in t, 'SINK',
-                  f"{spec.split('.')[-1]} collects ascending indexes and selects through _new_list_from_self",
-                  detail_bad=f"{spec} changed", key=f"SINK|{spec}|indexes")
+                  f"{spec.split('.')[-1]} collects ascending indexes and selects through _new_list_from_self")
     f2 = ctx.repo.func('_TRSTractList.filter')
     t = ' '.join(norm(s) for s in walk_local(f2.node) if isinstance(s, ast.stmt))
-    ctx.check('if key(element)' in t, 'SINK', 'filter includes exactly the elements whose key is truthy',
-              detail_bad="filter predicate changed", key="SINK|filter|predicate")
+    ctx.shape('if key(element)' in t, 'SINK', 'filter includes exactly the elements whose key is truthy')
+
+
+def _anc(n):
+    p = parent(n)
+    while p is not None:
+        yield p
+        p = parent(p)
 
 
 def _mro_calls(ctx):
